@@ -321,6 +321,7 @@ def execute(case):
   try:
     p = fdl.build(cfg)
     n_build = len(targets.LOG)
+    obs['n_build'] = n_build
     bt = reachable_ids(p)
     bt.update({id(r_): r_ for r_ in targets.LOG})
     results = []
@@ -337,7 +338,9 @@ def execute(case):
   # reference
   try:
     memo = {}
+    del targets.LOG[:]
     built = {k: ref_buildtime(v, memo) for k, v in graphs.configured_args(cfg).items()}
+    obs['n_ref_build'] = len(targets.LOG)
     del targets.LOG[:]
     rargs, rkw = pos_kw(graphs.sig_of(cfg), built)
     bt2 = {}
@@ -370,6 +373,10 @@ def oracle(case, real):
     return {'what': 'calls of the built Partial differ from the functools.partial reference '
                     '(values, freshness of ArgFactory results, or sharing of untouched objects)',
             'observed': real['results'], 'reference': real['reference']}
+  if 'n_build' in real and 'n_ref_build' in real and real['n_build'] != real['n_ref_build']:
+    return {'what': 'fdl.build invoked a different number of callables than the build-time part of the '
+                    'configuration has (argument factories run when the partial is called, not when it is built)',
+            'invoked during build': real['n_build'], 'build-time Buildables': real['n_ref_build']}
   if real.get('is_partial') is False:
     return {'what': 'fdl.build(Partial) did not return a functools.partial'}
   if not real['config_unchanged']:
